@@ -24,7 +24,7 @@ field - version, OID, parameters, key tag, key of 0..140 bytes, inner OCTET STRI
 with any declared length, long-form lengths, trailing bytes - with all enclosing lengths recomputed). Oracle: the generated DER and PEM private \
 key parse to a secret whose public key equals the parsed generated public key; an Ed25519 pair built by the harness (SHA-512, \
 clamp, base-point multiplication with curve25519-dalek) in OpenSSL DER form converts to a matching X25519 pair; PEM == DER; \
-concatenated PEM public keys parse to the same keys in order, and a bundle holding the mutated key between two valid \
+concatenated PEM public keys (some occurring twice) parse to the same keys in order, and a bundle holding the mutated key between two valid \
 ones is accepted exactly when the mutated key is accepted on its own; a PEM block whose payload is the PEM text of a key is rejected; canonical layouts always parse; on any input no panic; when a \
 DER input is accepted, the harness's own lenient TLV walk must extract the same key bytes, and the input must be the \
 documented structure - SEQUENCE { [INTEGER,] SEQUENCE { OID X25519 | Ed25519 }, key field of exactly 32 key bytes } with \
@@ -433,6 +433,17 @@ fn oracle(c: &Case, st: &mut Stats) -> Result<(), String> {
                 der.extend_from_slice(&pb);
                 text.push_str(&pem("PUBLIC KEY", &der, 64, c.crlf, true));
                 expect.push(pb);
+            }
+            // the same key may occur twice in a list (also once in each of its two forms): every block counts
+            if c.many % 2 == 0 {
+                text.push_str(&pem("PUBLIC KEY", &pub_der, 64, c.crlf, true));
+                expect.push(*pk.as_bytes());
+                if let Some(first) = expect.first().copied() {
+                    let mut der = cli::PUB_PREFIX_X.to_vec();
+                    der.extend_from_slice(&first);
+                    text.push_str(&pem("PUBLIC KEY", &der, 64, c.crlf, true));
+                    expect.push(first);
+                }
             }
             text.push_str(&pem("PUBLIC KEY", &pub_der, 64, c.crlf, c.trailing_newline));
             expect.push(*pk.as_bytes());
